@@ -83,6 +83,9 @@ var addCmd = &cobra.Command{
 		if len(args) == 0 {
 			return errors.New("nothing specified, nothing added")
 		}
+		if err := errIfEmptyPath(args); err != nil {
+			return err
+		}
 		args = toWorkTreePaths(args)
 		for _, arg := range args {
 			// a path that leaves the working tree cannot be tracked
